@@ -327,18 +327,20 @@ do {									\
 		return (-1);						\
 									\
 	/* XXX(niels): faster? */					\
-	data = evbuffer_pullup(evbuf, offset + 1) + offset;		\
+	data = evbuffer_pullup(evbuf, offset + 1);			\
 	if (!data)							\
 		return (-1);						\
+	data += offset;							\
 									\
 	nibbles = ((data[0] & 0xf0) >> 4) + 1;				\
 	if (nibbles > maxnibbles || (nibbles >> 1) + 1 > len)		\
 		return (-1);						\
 	len = (nibbles >> 1) + 1;					\
 									\
-	data = evbuffer_pullup(evbuf, offset + len) + offset;		\
+	data = evbuffer_pullup(evbuf, offset + len);			\
 	if (!data)							\
 		return (-1);						\
+	data += offset;							\
 									\
 	while (nibbles > 0) {						\
 		number <<= 4;						\
@@ -476,8 +478,13 @@ evtag_unmarshal(struct evbuffer *src, ev_uint32_t *ptag, struct evbuffer *dst)
 	if ((len = evtag_unmarshal_header(src, ptag)) == -1)
 		return (-1);
 
-	if (evbuffer_add(dst, evbuffer_pullup(src, len), len) == -1)
-		return (-1);
+	if (len > 0) {
+		unsigned char *data = evbuffer_pullup(src, len);
+		if (data == NULL)
+			return (-1);
+		if (evbuffer_add(dst, data, len) == -1)
+			return (-1);
+	}
 
 	evbuffer_drain(src, len);
 
